@@ -359,7 +359,7 @@ fn build_arguments<'b, 'r, 'c, 's:'c, 'm:'c>(
 fn lift_function_name<'m>(doc: Document<'m>, function_name: Element<'m>, children: Vec<Element<'m>>) -> Element<'m> {
     // debug!("    lift_function_name: {}", name(&function_name));
     // debug!("    lift_function_name: {}", mml_to_string(&function_name));
-    if is_leaf(function_name) {
+    if is_leaf(function_name) && function_name.children().iter().all(|child| child.element().is_none()) {
         // simple/normal case of f(x,y)
         set_mathml_name(function_name, as_text(function_name));
         function_name.set_text("");
